@@ -310,6 +310,22 @@ def check_cache(prog, report):
                      short, fi.where(),
                      'load and save use the file name built from the digest',
                      construct='%s: file name' % short)
+        # whatever else the result depends on must be in the file name:
+        # the load vector depends on the initial datum, identified by
+        # self.problem
+        if short == 'linform_vector':
+            fn_asg = [n for n in ast.walk(fn) if isinstance(n, ast.Assign)
+                      and fname and text(n.targets[0]) == fname]
+            okp = len(fn_asg) == 1 and any(
+                text(m) == 'self.problem' for m in ast.walk(fn_asg[0].value))
+            report.check(
+                okp, 'R-cachekey', 'linform_vector file name carries the '
+                'problem', fi.where(),
+                'the cached vector depends on the initial datum u0; the '
+                'only identifier of u0 is self.problem, which must be part '
+                'of the cache file name (two problems on one domain share '
+                'the cache directory in the driver)',
+                construct='linform_vector: problem in the file name')
         # I/O discipline
         for c in loads:
             tr = _enclosing_try(fn, c)
@@ -435,3 +451,31 @@ def _enclosing_try(fnode, target):
             if any(m is target for s in n.body for m in ast.walk(s)):
                 best = n
     return best
+
+
+def check_reductions(prog, report):
+    """Reductions over collections whose iteration order is not fixed by
+    the program (a `set` of freshly built objects iterates in address
+    order) must be order independent: math.fsum is correctly rounded, the
+    builtin sum / np.sum are not associative in floating point."""
+    fi = prog.func(IP, 'InitialOperator.linform')
+    # is leaf_elements of the domain mesh a set?
+    im = prog.func('src/initial_mesh.py', 'InitialMesh.__init__')
+    is_set = any(isinstance(n, ast.Assign) and text(
+        n.targets[0]) == 'self.leaf_elements' and text(
+            n.value).replace(' ', '') == 'set()' for n in ast.walk(im.node))
+    loops = [n for n in fi.node.body if isinstance(n, ast.For)]
+    over_set = len(loops) == 1 and text(loops[0].iter).endswith(
+        '.leaf_elements')
+    ret = [n for n in fi.node.body if isinstance(n, ast.Return)]
+    red = None
+    if len(ret) == 1 and isinstance(ret[0].value, ast.Tuple):
+        red = ret[0].value.elts[0]
+    fn = text(red.func) if isinstance(red, ast.Call) else None
+    ok = fn in ('math.fsum', 'fsum') or not (is_set and over_set)
+    report.check(ok, 'R-determinism', 'linform reduction', fi.where(),
+                 'the cell contributions are collected while iterating a '
+                 'set (address order: differs between the parent process '
+                 'and forked workers); their sum must be order independent '
+                 '(math.fsum); found `%s`' % fn,
+                 construct='linform: reduction over a set')
